@@ -15,6 +15,7 @@ import hashlib
 import json
 import math
 import os
+import re
 import sys
 import time
 import traceback
@@ -94,6 +95,27 @@ def _lattice_frame(tb):
   return found
 
 
+_USER_CODE_FRAME = re.compile(
+    r'File "([^"]*/tensorflow_lattice/[^"]*)", line \d+, in (\w+)')
+
+
+def _traced_lattice_frame(exc):
+  """Library frame named in the MESSAGE of an exception raised while tracing.
+
+  When Keras / tf.function trace a layer call (functional model, model.fit,
+  tf.function with autograph) a library exception is re-raised with the
+  original frames stripped from the traceback and quoted in the message
+  instead ("in user code:  File ".../tensorflow_lattice/python/x.py", line n,
+  in f").  The last such frame is returned as "x.py:f".
+  """
+  found = None
+  for m in _USER_CODE_FRAME.finditer(str(exc)):
+    fn = m.group(1).replace("\\", "/")
+    if "/verif/" not in fn:
+      found = "%s:%s" % (os.path.basename(fn), m.group(2))
+  return found
+
+
 def safe_run(mod, case):
   """Runs mod.run_case(case); library exceptions become violations.
 
@@ -111,7 +133,7 @@ def safe_run(mod, case):
   except (KeyboardInterrupt, SystemExit):
     raise
   except Exception as e:  # pylint: disable=broad-except
-    where = _lattice_frame(e.__traceback__)
+    where = _lattice_frame(e.__traceback__) or _traced_lattice_frame(e)
     if where is None:
       raise HarnessError("harness exception on case %s:\n%s" %
                          (canonical(case)[:2000], traceback.format_exc()))
